@@ -48,7 +48,7 @@ var pureStd = map[string]bool{
 	"encoding/hex.EncodeToString": true, "(*encoding/base64.Encoding).EncodeToString": true,
 	"bytes.HasPrefix": true, "bytes.Compare": true,
 	"unicode.IsUpper": true, "unicode.IsLower": true, "unicode.IsDigit": true, "unicode.IsLetter": true, "unicode.IsSpace": true,
-	"math.Abs": true, "math.Floor": true,
+	"math.Abs": true,
 	"slices.Contains": true, "slices.Equal": true, "slices.Index": true,
 	// getters of library interfaces: the answer is a function of the value asked
 	"(io/fs.DirEntry).Name": true, "(io/fs.DirEntry).IsDir": true, "(io/fs.DirEntry).Type": true,
@@ -89,6 +89,11 @@ func init() {
 			e.assume(st, Ite(Eq(SlcLen(p), IntLit(0)), Eq(n, IntLit(0)), And(Le(IntLit(1), n), Le(n, IntLit(4)), Le(n, SlcLen(p)))))
 			e.assume(st, T(SBool, fmt.Sprintf("(forall ((i Int)) (! (=> (and (> %s 1) (<= 0 i) (< i %s)) (>= (select (slc_arr %s) i) 128)) :pattern ((select (slc_arr %s) i))))", n.S, n.S, p.S, p.S)))
 			return Val{Tuple: []Val{r, {T: n, GT: intT}}}
+		},
+		// math.Floor over the reals (floats are modelled as mathematical reals: rounding is not modelled)
+		"math.Floor": func(e *Exec, st *State, a []Val, x *ast.CallExpr) Val {
+			e.trust("floating point treated as real arithmetic in math.Floor")
+			return Val{T: App("Real", "to_real", App(SInt, "to_int", a[0].T)), GT: types.Typ[types.Float64]}
 		},
 		// strings.Cut(s, sep): before + sep + after == s at the FIRST occurrence of sep, or (s, "", false)
 		"strings.Cut": func(e *Exec, st *State, a []Val, x *ast.CallExpr) Val {
@@ -538,7 +543,9 @@ func (e *Exec) conversion(st *State, v Val, t types.Type, pos token.Pos) Val {
 	case fs == SInt && ts == "Real":
 		return Val{T: App("Real", "to_real", v.T), GT: t}
 	case fs == "Real" && ts == SInt:
-		return Val{T: App(SInt, "to_int", v.T), GT: t}
+		// Go truncates towards zero; SMT to_int is floor
+		neg := App(SInt, "-", App(SInt, "to_int", App("Real", "-", v.T)))
+		return Val{T: Ite(App(SBool, ">=", v.T, T("Real", "0.0")), App(SInt, "to_int", v.T), neg), GT: t}
 	}
 	e.fail(pos, "unsupported conversion %s -> %s", from, t)
 	return Val{}
